@@ -134,7 +134,8 @@ void get_reg_str(char *opd_str, char *reg) {
       reg = NULL;
       break;
     }
-    if (i > 0 && opd_str[i] == 'x' && opd_str[i - 1] == '0')
+    // "0x" starts a number, but only when no register name has begun
+    if (j < 1 && i > 0 && opd_str[i] == 'x' && opd_str[i - 1] == '0')
       break;
     if (j > 0 &&
         (IN_RANGE(opd_str[i], 'a', 'z') || IN_RANGE(opd_str[i], '0', '9')))
@@ -200,6 +201,9 @@ unsigned int get_index_reg(struct instr *instruc, const char *mem, char reg[]) {
   for (int i = 0; i < len; i++) {
     if ((multiply || plus) && IN_RANGE(mem[i], 'a', 'z')) {
       int j = copy_index_reg(i, mem, reg);
+      // no register name could be read where an index register is expected
+      if (j == i)
+        return EXIT_FAILURE;
       if (instruc->sib_disp && mem[j] == '*')
         return EXIT_FAILURE;
       if (!instruc->sib_disp && mem[j] == '*' &&
